@@ -92,7 +92,8 @@ def run(ctx):
     nl = 0
     kw = PlyLexer.keywords
     for lit, ty in gen_text.literals():
-        for pre, post in (("", ""), ("x = ", ";"), ("(", ")"), ("\n ", " \n"), ("a+", "+b")):
+        # … and directly behind / in front of another literal with nothing in between (adjacent string literals are ordinary C++)
+        for pre, post in (("", ""), ("x = ", ";"), ("(", ")"), ("\n ", " \n"), ("a+", "+b"), ("\"p\"", ""), ("'q'", ";"), ("", "\"t\""), ("x = \"p\"\"r\"", "\"t\";")):
             for udl in ("", "_km"):
                 nl += 1
                 text = pre + lit + udl + post
